@@ -2852,14 +2852,23 @@ func (data *Data) DropSubscription(database, rp, name string) error {
 		if !ok {
 			return ErrDatabaseNotExists
 		}
-		for _, rpi := range db.RetentionPolicies {
+		// every meta node must pick the same policy: walk them in name order, not in map order
+		var found bool
+		db.WalkRetentionPolicyOrderly(func(rpi *RetentionPolicyInfo) {
+			if found {
+				return
+			}
 			for i := range rpi.Subscriptions {
 				if rpi.Subscriptions[i].Name == name {
 					rpi.Subscriptions = append(rpi.Subscriptions[:i], rpi.Subscriptions[i+1:]...)
 					data.MaxSubscriptionID++
-					return nil
+					found = true
+					return
 				}
 			}
+		})
+		if found {
+			return nil
 		}
 	}
 
